@@ -28,7 +28,7 @@ def bounds(tier):
 
 
 def jobs(tier, seed):
-    n = 6 if tier == "quick" else 32
+    n = 10 if tier == "quick" else 32
     js = [{"sub": "calls", "chunk": i, "of": n} for i in range(n)]
     js.append({"sub": "calls", "chunk": 0, "of": n, "hashseed": 1 + seed % 1000, "primary": False})
     return js
@@ -60,6 +60,10 @@ SPECIAL = [
 def corpus(tier):
     for d in SPECIAL:
         yield d
+    for d in SPECIAL[:4]:
+        yield dict(d, raw=True, name=d["name"] + "_raw")  # built on a bare graph: no 'output' attribute on non-outputs
+    for gates in space.circuits(2, 1, max_arity=2, min_gates=1):
+        yield dict(space.to_desc(2, gates, outputs="gates"), raw=True)
     for I, G, ar in bounds(tier)["corpus"]:
         for gates in space.circuits(I, G, max_arity=ar, min_gates=1):
             yield space.to_desc(I, gates, outputs="gates")
